@@ -2,6 +2,8 @@ package c20
 
 import (
 	"fmt"
+	"os"
+	"strconv"
 	"testing"
 	"time"
 
@@ -35,10 +37,17 @@ type SParams struct {
 	InitRTT int64 `json:"init_rtt"` // RTTStats.SetInitialRTT (token RTT), 0 = none
 	Big     bool  `json:"big"`      // generator hint: long bursts, tries to reach the maximum window
 	Huge    bool  `json:"huge"`     // generator hint: one clock step in twenty is between 24 s and 36 years
+	// generator hints for histories that live next to the maximum window (see genNear); Apply does not read them
+	Near      bool  `json:"near,omitempty"`        // loss-free slow start to NearK packets below the maximum, leave slow start there, stay
+	NearK     int   `json:"near_k,omitempty"`      // distance of the slow-start exit from the maximum window, packets
+	NearRTT   int64 `json:"near_rtt,omitempty"`    // round-trip time of the ramp, ns
+	NearChunk int   `json:"near_chunk,omitempty"`  // packets per ACK frame during the ramp (0: a whole flight per frame)
+	NearMTUAt int   `json:"near_mtu_at,omitempty"` // > 0: one SetMaxDatagramSize increase once the window passed this many packets
+	NearWork  int   `json:"near_work,omitempty"`   // callback budget of the directed part of the history
 }
 
 type SOp struct {
-	K  string `json:"k"`            // send | ack | lossto | rto | mtu | tick
+	K  string `json:"k"`            // send | ack | lossto | rto | mtu | tick | flight
 	Dt int64  `json:"dt,omitempty"` // clock advance before the op, ns
 	// send
 	N       int    `json:"n,omitempty"`       // number of packets
@@ -47,6 +56,8 @@ type SOp struct {
 	Wait    bool   `json:"w,omitempty"`       // when pacing-limited wait until TimeUntilSend like the connection's timer
 	Skip    int64  `json:"skip,omitempty"`    // packet numbers skipped before the first packet
 	Requeue bool   `json:"requeue,omitempty"` // probe: QueueProbePacket first (oldest outstanding leaves bytes in flight silently)
+	Until   int64  `json:"until,omitempty"`   // with w: do not wait for the pacer beyond this time (set by flight: the arrival of the next ACK frame)
+	Spin    bool   `json:"spin,omitempty"`    // with w: keep waiting while the pacer (still working with 1280-byte datagrams) withholds the last bytes of a larger datagram
 	// ack / lossto
 	Acked    []int64 `json:"acked,omitempty"` // newly acknowledged packet numbers, ascending
 	Lost     []int64 `json:"lost,omitempty"`  // packets declared lost by the loss detection run of this event
@@ -57,6 +68,15 @@ type SOp struct {
 	MDS int64 `json:"mds,omitempty"`
 	// rto
 	Retrans bool `json:"rx,omitempty"`
+	// flight (macro-op, expanded inside Apply into the ordinary per-packet calls): R round trips; in each the N
+	// oldest outstanding packets (0 = everything outstanding at the start of the round trip) are acknowledged in
+	// ACK frames of Chunk packets (0 = one frame); a frame arrives no earlier than RTT after its largest packet
+	// left; FreeRTT / AckDelay as for ack. With Refill the window is refilled before the round trip and after
+	// every frame exactly as send{any, wait} does (ACK clocking: the sender stays window-limited).
+	R      int   `json:"r,omitempty"`
+	Chunk  int   `json:"chunk,omitempty"`
+	RTT    int64 `json:"rtt,omitempty"`
+	Refill bool  `json:"refill,omitempty"`
 }
 
 type spkt struct {
@@ -101,6 +121,30 @@ type senderMachine struct {
 	mismatchSpin              bool
 	freeRTT, ce               bool
 	sig                       []byte
+
+	// neighbourhood of the maximum window (classes; the bounds oracle itself is in bounds())
+	nearMax         bool // the window was within three packets below the maximum
+	caAtMaxAcks     int  // window-limited ACKs processed in congestion avoidance with the window within three packets of the maximum (or above)
+	ssAtMax         bool // a window-limited ACK was processed in slow start with the window at the maximum
+	ssExit          bool // MaybeExitSlowStart ended slow start (no loss involved)
+	ssExitNearMax   bool // ... with the window within 16 packets of the maximum
+	reductionAtMax  bool // a congestion event lowered a window that was within three packets of the maximum
+	mtuAtMax        bool // SetMaxDatagramSize grew the datagram size while the window was within three packets of the maximum
+	appLimitedAtMax bool // an ACK arrived while the window was near the maximum and the sender was not window-limited
+	fracAtMax       bool // the window was at or above the maximum and not a multiple of the datagram size
+	work            int  // per-packet callbacks made so far (generator budget)
+	flights         int  // flight ops applied
+
+	// generator-only state (never read by Apply): mirror of the hybrid-slow-start round bookkeeping
+	// (hybrid_slow_start.go: StartReceiveRound / IsEndOfRound / rttSampleCount) and a queue of planned ops
+	hsStarted  bool
+	hsEnd      int64
+	hsCount    int
+	plan       []SOp
+	nearMTU    bool // the ramp's MTU increase has been issued
+	nearFilled bool // the previous op was the generator's window fill
+	nearLeft   bool // the directed part is over (reduction, budget used up)
+	cheap      bool // remaining ops must be cheap (budget used up with thousands of packets outstanding)
 }
 
 func newSenderMachine(unit string) func(SParams) vf.Machine[SOp] {
@@ -114,7 +158,7 @@ func newSenderMachine(unit string) func(SParams) vf.Machine[SOp] {
 		}
 		m.s = congestion.NewCubicSender(congestion.DefaultClock{}, m.rtt, &utils.ConnectionStats{}, protocol.ByteCount(p.MDS), p.Reno, nil)
 		m.iv.lookback = 256
-		if p.Big {
+		if p.Big || p.Near {
 			m.iv.lookback = 48
 		}
 		return m
@@ -129,9 +173,14 @@ func (m *senderMachine) note(b ...byte)        { m.sig = append(m.sig, b...) }
 func (m *senderMachine) known(sig string) bool { return vf.IsKnown(sig) }
 func (m *senderMachine) floor() int64          { return 2 * m.mds }
 func (m *senderMachine) ceiling() int64        { return (protocol.MaxCongestionWindowPackets + 1) * m.mds }
-func (m *senderMachine) hasBudget() bool       { return m.s.HasPacingBudget(m.t()) }
-func (m *senderMachine) canSend() bool         { return m.s.CanSend(protocol.ByteCount(m.inflight)) }
-func (m *senderMachine) tus() int64            { return int64(m.s.TimeUntilSend(protocol.ByteCount(m.inflight))) }
+func (m *senderMachine) maxWindow() int64      { return protocol.MaxCongestionWindowPackets * m.mds }
+func (m *senderMachine) atMax(w int64) bool    { return w >= m.maxWindow()-3*m.mds } // within three packets of the maximum, or above
+func (m *senderMachine) limited(prior, w int64) bool {
+	return prior >= w || w-prior <= 3*m.mds // the window-limited test that does not depend on slow start
+}
+func (m *senderMachine) hasBudget() bool { return m.s.HasPacingBudget(m.t()) }
+func (m *senderMachine) canSend() bool   { return m.s.CanSend(protocol.ByteCount(m.inflight)) }
+func (m *senderMachine) tus() int64      { return int64(m.s.TimeUntilSend(protocol.ByteCount(m.inflight))) }
 func (m *senderMachine) describe() string {
 	return fmt.Sprintf("[reno=%v mds=%d cwnd=%d inflight=%d now=%d ss=%v rec=%v]", m.p.Reno, m.mds, m.cwnd(), m.inflight, m.now, m.s.InSlowStart(), m.s.InRecovery())
 }
@@ -167,6 +216,11 @@ func (m *senderMachine) bounds(where string) *vf.Verdict {
 	}
 	if w >= protocol.MaxCongestionWindowPackets*m.mds {
 		m.hitMax = true
+		if w%m.mds != 0 {
+			m.fracAtMax = true
+		}
+	} else if m.atMax(w) {
+		m.nearMax = true
 	}
 	if w == m.floor() {
 		m.hitMin = true
@@ -197,6 +251,9 @@ func (m *senderMachine) congestionEvent(pn, lostBytes, prior int64) *vf.Verdict 
 		}
 		m.marker = m.largestSentAE
 		m.reductions++
+		if m.atMax(before) {
+			m.reductionAtMax = true
+		}
 		m.mtuSinceEpoch = false
 		m.epochStart = 0
 	}
@@ -208,8 +265,22 @@ func (m *senderMachine) packetAcked(pn, size, prior int64) *vf.Verdict {
 	before := m.cwnd()
 	ss := m.s.InSlowStart() // as seen while the ACK is processed
 	m.s.OnPacketAcked(protocol.PacketNumber(pn), protocol.ByteCount(size), protocol.ByteCount(prior), m.t())
+	m.work++
 	after := m.cwnd()
 	rec := m.s.InRecovery()
+	if !rec && m.s.InSlowStart() && pn > m.hsEnd {
+		m.hsStarted = false // generator mirror: hybridSlowStart.OnPacketAcked / IsEndOfRound
+	}
+	if m.atMax(before) && !rec {
+		switch lim := m.limited(prior, before); {
+		case !lim:
+			m.appLimitedAtMax = true
+		case ss && before >= m.maxWindow():
+			m.ssAtMax = true
+		case !ss:
+			m.caAtMaxAcks++
+		}
+	}
 	switch {
 	case rec:
 		m.ackRec = true
@@ -281,7 +352,9 @@ func (m *senderMachine) trackEpoch(prior, cwndBefore int64, ss, rec bool) {
 		m.epochStart = 0
 		return
 	}
-	if ss {
+	if ss || cwndBefore >= m.maxWindow() {
+		// at the maximum the sender returns before consulting cubic (maybeIncreaseCwnd): no epoch starts, and the
+		// minimum RTT cubic last saw stays what it was
 		return
 	}
 	if m.epochStart == 0 {
@@ -321,6 +394,7 @@ func (m *senderMachine) sendOne(size int64, ae, auth bool) *vf.Verdict {
 	}
 	before := m.cwnd()
 	m.s.OnPacketSent(m.t(), protocol.ByteCount(m.inflight), protocol.PacketNumber(pn), protocol.ByteCount(size), ae)
+	m.work++
 	m.out = append(m.out, spkt{pn: pn, size: size, sent: m.now, ae: ae})
 	m.lastSend = m.now
 	if m.cwnd() != before {
@@ -398,6 +472,9 @@ func (m *senderMachine) applySend(op SOp) *vf.Verdict {
 			if t > maxClock {
 				break
 			}
+			if op.Until > 0 && t > op.Until {
+				break // an ACK arrives before the pacing timer fires: the connection processes it first
+			}
 			if t > m.now {
 				m.now = t
 				m.pacedWait = true
@@ -406,7 +483,17 @@ func (m *senderMachine) applySend(op SOp) *vf.Verdict {
 				if m.mds <= m.pmds && t != 0 {
 					return vf.Bad(sigTUSEarly, "still no pacing budget at the deadline TimeUntilSend()=%d (bandwidth unchanged) %s", t, m.describe())
 				}
-				break
+				if !op.Spin || m.mds <= m.pmds {
+					break
+				}
+				// sender size above the pacer's (see the observation above): the connection's pacing timer fires at once,
+				// again and again, until the last few bytes are refilled; time passes meanwhile
+				for step := int64(1000); step <= 1_000_000_000 && m.now+step < maxClock && !m.hasBudget(); step *= 2 {
+					m.now += step
+				}
+				if !m.hasBudget() {
+					break
+				}
 			}
 		}
 		if v := m.sendOne(size, true, true); v != nil {
@@ -439,7 +526,11 @@ func (m *senderMachine) callTUS(out *int64) (v *vf.Verdict) {
 
 func (m *senderMachine) applyAck(op SOp) *vf.Verdict {
 	// newly acknowledged packets, ascending, all from the ledger
-	acked := m.take(op.Acked, nil)
+	return m.ackPkts(m.take(op.Acked, nil), op)
+}
+
+// ackPkts is sentPacketHandler.ReceivedAck for the newly acknowledged packets acked (already taken from the ledger).
+func (m *senderMachine) ackPkts(acked []spkt, op SOp) *vf.Verdict {
 	if len(acked) == 0 {
 		return nil // ReceivedAck returns early: nothing newly acknowledged
 	}
@@ -460,9 +551,22 @@ func (m *senderMachine) applyAck(op SOp) *vf.Verdict {
 			m.largestAckedSent = largest.sent
 		}
 		before := m.cwnd()
+		ss := m.s.InSlowStart()
+		if ss { // generator mirror: hybridSlowStart.ShouldExitSlowStart is consulted, a round starts if none is running
+			if !m.hsStarted {
+				m.hsStarted, m.hsEnd, m.hsCount = true, m.largestSentAE, 0
+			}
+			m.hsCount++
+		}
 		m.s.MaybeExitSlowStart()
 		if m.cwnd() != before {
 			return vf.Bad(sigNonLossLowers, "MaybeExitSlowStart changed cwnd %d -> %d", before, m.cwnd())
+		}
+		if ss && !m.s.InSlowStart() {
+			m.ssExit = true
+			if before >= m.maxWindow()-16*m.mds {
+				m.ssExitNearMax = true
+			}
 		}
 	}
 	if op.CE && largest.pn > m.largestAcked {
@@ -490,6 +594,9 @@ func (m *senderMachine) applyAck(op SOp) *vf.Verdict {
 // applyLosses is detectLostPackets: every lost packet is below the largest acknowledged one, ack-eliciting packets
 // leave bytes in flight and are reported with the in-flight value from before the detection run.
 func (m *senderMachine) applyLosses(lost []int64) *vf.Verdict {
+	if len(lost) == 0 {
+		return nil
+	}
 	prior := m.inflight
 	for _, p := range m.take(lost, func(pn int64) bool { return pn < m.largestAcked }) {
 		if !p.ae {
@@ -498,6 +605,67 @@ func (m *senderMachine) applyLosses(lost []int64) *vf.Verdict {
 		m.inflight -= p.size
 		if v := m.congestionEvent(p.pn, p.size, prior); v != nil {
 			return v
+		}
+	}
+	return nil
+}
+
+// applyFlight expands the macro-op "flight" into the ordinary calls: refill (send{any, wait}), then ACK frames over
+// the oldest outstanding packets, each followed by a refill. Every per-packet oracle runs as for single ops
+// (sendOne, ackPkts -> packetAcked -> bounds).
+func (m *senderMachine) applyFlight(op SOp) *vf.Verdict {
+	m.flights++
+	// arrival time of the next ACK frame of this flight (0: unknown / not timed)
+	next := func(n int) int64 {
+		if op.RTT <= 0 || len(m.out) == 0 {
+			return 0
+		}
+		c := len(m.out)
+		if n > 0 {
+			c = min(c, n)
+		}
+		if op.Chunk > 0 {
+			c = min(c, op.Chunk)
+		}
+		return min(m.out[c-1].sent+op.RTT, maxClock)
+	}
+	// refill as send{any, wait} does, but an ACK frame that arrives before the pacer's deadline is processed first
+	// (the run loop handles received packets while it waits for the pacing timer)
+	fill := func(n int) *vf.Verdict {
+		if !op.Refill {
+			return nil
+		}
+		return m.applySend(SOp{K: "send", Mode: "any", N: 30000, Wait: true, Spin: true, Until: next(n)})
+	}
+	for r := 0; r < max(op.R, 1); r++ {
+		if v := fill(op.N); v != nil {
+			return v
+		}
+		n := op.N
+		if n <= 0 || n > len(m.out) {
+			n = len(m.out) // the flight outstanding at the start of the round trip
+		}
+		for n > 0 && len(m.out) > 0 {
+			c := min(n, len(m.out))
+			if op.Chunk > 0 {
+				c = min(c, op.Chunk)
+			}
+			acked := m.out[:c:c]
+			m.out = m.out[c:]
+			n -= c
+			if op.RTT > 0 { // the frame arrives one round-trip time after its largest packet left (or now, if that is later)
+				m.now = min(max(m.now, acked[c-1].sent+op.RTT), maxClock)
+			}
+			if v := m.ackPkts(acked, SOp{K: "ack", FreeRTT: op.FreeRTT, AckDelay: op.AckDelay}); v != nil {
+				return v
+			}
+			nn := n
+			if nn == 0 && r+1 < max(op.R, 1) {
+				nn = op.N // the next round trip begins
+			}
+			if v := fill(nn); v != nil {
+				return v
+			}
 		}
 	}
 	return nil
@@ -546,6 +714,7 @@ func (m *senderMachine) apply(op SOp) *vf.Verdict {
 		if op.Retrans { // only then is the cubic state reset
 			m.mtuSinceEpoch = false
 			m.epochStart = 0
+			m.hsStarted = false
 		}
 		before = m.cwnd()
 	case "mtu":
@@ -555,6 +724,9 @@ func (m *senderMachine) apply(op SOp) *vf.Verdict {
 		wasMin := before == m.floor()
 		m.s.SetMaxDatagramSize(protocol.ByteCount(s))
 		grew := s > m.mds
+		if grew && m.atMax(before) {
+			m.mtuAtMax = true
+		}
 		m.mds, m.pmds = s, s
 		m.mtus++
 		if m.cwnd() < before {
@@ -575,8 +747,13 @@ func (m *senderMachine) apply(op SOp) *vf.Verdict {
 		m.note('t')
 		// queries only
 		m.hasBudget()
+	case "flight":
+		m.note('f', byte(op.R), byte(min(op.Chunk, 255)))
+		if v := m.applyFlight(op); v != nil {
+			return v
+		}
 	}
-	if op.K != "ack" && op.K != "lossto" && m.cwnd() < before {
+	if op.K != "ack" && op.K != "lossto" && op.K != "flight" && m.cwnd() < before {
 		return vf.Bad(sigNonLossLowers, "%s lowered cwnd %d -> %d", op.K, before, m.cwnd())
 	}
 	return m.bounds("after " + op.K)
@@ -596,6 +773,28 @@ func (m *senderMachine) Finish(u *vf.Unit) *vf.Verdict {
 		if c.b {
 			u.Class(c.n)
 		}
+	}
+	// the neighbourhood of the maximum window, per mode
+	mode := map[bool]string{true: "/reno", false: "/cubic"}[m.p.Reno]
+	for _, c := range []struct {
+		n string
+		b bool
+	}{{"at-maximum", m.hitMax}, {"within-3-packets-of-maximum", m.nearMax}, {"congestion-avoidance-at-maximum", m.caAtMaxAcks > 0},
+		{"congestion-avoidance-at-maximum>=2-windows-of-acks", m.caAtMaxAcks >= 2*protocol.MaxCongestionWindowPackets},
+		{"slow-start-at-maximum", m.ssAtMax}, {"slow-start-exit-without-loss", m.ssExit},
+		{"slow-start-exit-without-loss-near-maximum", m.ssExitNearMax}, {"reduction-at-maximum", m.reductionAtMax},
+		{"mtu-increase-at-maximum", m.mtuAtMax}, {"app-limited-ack-at-maximum", m.appLimitedAtMax},
+		{"at-maximum-not-a-multiple-of-the-datagram-size", m.fracAtMax}} {
+		if c.b {
+			u.Class(c.n)
+			u.Class(c.n + mode)
+		}
+	}
+	if m.p.Near {
+		u.Class("near-history")
+	}
+	if m.flights > 0 {
+		u.Class("flight-op")
 	}
 	if m.ackSS && m.ackRec && m.ackCA {
 		u.NonTrivial(m.p.Reno, m.p.MDS, m.sig)
@@ -642,7 +841,122 @@ func (m *senderMachine) outstandingAE() []spkt {
 }
 
 func (m *senderMachine) Gen(t *rapid.T) SOp {
-	nOut := len(m.out)
+	if m.p.Near {
+		if op, ok := m.genNear(t); ok {
+			return op
+		}
+	}
+	return m.genPlain(t)
+}
+
+// genNear directs a history into the neighbourhood of the maximum window (10000 datagrams), where no undirected
+// history ever gets: loss-free, window-limited slow start (flights) up to NearK packets below the maximum; there the
+// round-trip time rises so that hybrid slow start sees 8 increased samples at the start of a round and
+// MaybeExitSlowStart ends slow start without a loss; then window-limited round trips in congestion avoidance, mixed
+// with MTU increases, application-limited flights and the ordinary ops (losses, ECN, probes, timeouts). All choices
+// are made from the machine state, so interleaved ordinary ops do not derail it. ok=false: use the plain generator.
+func (m *senderMachine) genNear(t *rapid.T) (SOp, bool) {
+	if len(m.plan) > 0 {
+		op := m.plan[0]
+		m.plan = m.plan[1:]
+		return op, true
+	}
+	if m.nearLeft {
+		return SOp{}, false
+	}
+	leave := func() (SOp, bool) {
+		m.nearLeft = true
+		m.cheap = len(m.out) > 256
+		return SOp{}, false
+	}
+	if m.work > m.p.NearWork {
+		return leave()
+	}
+	w, mds, maxW := m.cwnd(), m.mds, m.maxWindow()
+	rtt := m.p.NearRTT
+	high := rtt + rtt/4 + 20_000_000 // above minRTT + clamp(minRTT/8, 4 ms, 16 ms)
+	ss, rec := m.s.InSlowStart(), m.s.InRecovery()
+	filled := m.nearFilled
+	m.nearFilled = false
+	switch {
+	case rec || (!ss && m.p.Reno && w < maxW-64*mds):
+		// a reduction (or an early end of slow start) took the window away from the maximum; Reno needs thousands of
+		// round trips to come back
+		return leave()
+	case ss:
+		if m.p.NearMTUAt > 0 && !m.nearMTU && w >= int64(m.p.NearMTUAt)*mds {
+			m.nearMTU = true
+			return SOp{K: "mtu", MDS: min(mds+rapid.SampledFrom([]int64{1, 1, 7, 100, 172, 252}).Draw(t, "near-mtu"), 1452)}, true
+		}
+		if m.canSend() && !filled {
+			m.nearFilled = true
+			return SOp{K: "send", Mode: "any", N: 30000, Wait: true, Spin: true, Dt: 1000}, true
+		}
+		target := maxW - int64(m.p.NearK)*mds
+		g := (target - w + mds - 1) / mds // packets of growth still wanted
+		ww := int64(len(m.out))           // a full window is outstanding
+		free := int64(0)
+		if rapid.IntRange(0, 3).Draw(t, "near-free") != 0 {
+			free = rtt
+		}
+		if g-7 > ww && ww > 0 {
+			// whole round trips of slow start: every acknowledged packet adds one datagram, the window doubles
+			r := 0
+			for g-7 > ww && (m.p.NearMTUAt == 0 || m.nearMTU || ww < int64(m.p.NearMTUAt)) {
+				g -= ww
+				ww *= 2
+				r++
+			}
+			return SOp{K: "flight", R: max(r, 1), Chunk: m.p.NearChunk, RTT: rtt, FreeRTT: free, Refill: true}, true
+		}
+		// the last round trip of slow start: grow by exactly g packets, then 8 samples of a fresh hybrid-slow-start
+		// round must show the increased delay; the 8th ends slow start before its packets are processed
+		if m.hsStarted {
+			idx := int64(len(m.out))
+			for i, p := range m.out {
+				if p.ae && p.pn > m.hsEnd {
+					idx = int64(i)
+					break
+				}
+			}
+			n1 := int(max(g-7, idx+1, 1)) // this frame ends the running round (it acknowledges a packet sent after the round began)
+			m.plan = []SOp{{K: "flight", N: 8, Chunk: 1, RTT: high, FreeRTT: high, Refill: true}}
+			return SOp{K: "flight", N: n1, Chunk: n1, RTT: rtt, FreeRTT: free, Refill: true}, true
+		}
+		n1 := int(max(g-6, 1)) // no round is running: this frame is the first sample of the new one
+		m.plan = []SOp{{K: "flight", N: 7, Chunk: 1, RTT: high, FreeRTT: high, Refill: true}}
+		return SOp{K: "flight", N: n1, Chunk: n1, RTT: high, FreeRTT: high, Refill: true}, true
+	}
+	// congestion avoidance next to the maximum (Cubic: anywhere, its window returns within seconds of model time)
+	rtts := []int64{rtt, rtt, high, high}
+	if !m.p.Reno {
+		rtts = append(rtts, 300_000_000, 1_000_000_000, 3_000_000_000)
+	}
+	r2 := rapid.SampledFrom(rtts).Draw(t, "near-rtt")
+	free := int64(0)
+	if rapid.Bool().Draw(t, "near-free2") {
+		free = r2
+	}
+	switch x := rapid.IntRange(0, 19).Draw(t, "near-op"); {
+	case x < 12: // window-limited round trips
+		return SOp{K: "flight", R: rapid.IntRange(1, 3).Draw(t, "r"), Chunk: rapid.SampledFrom([]int{0, 0, 0, 2, 10, 64, 1000}).Draw(t, "chunk"),
+			RTT: r2, FreeRTT: free, Refill: true}, true
+	case x < 14: // the maximum moves (in bytes)
+		return SOp{K: "mtu", MDS: min(mds+rapid.SampledFrom([]int64{1, 1, 2, 7, 100, 252}).Draw(t, "near-mtu"), 1452)}, true
+	case x == 14: // application-limited: the flight drains without being refilled
+		return SOp{K: "flight", R: 1, Chunk: rapid.SampledFrom([]int{2, 64, 1000}).Draw(t, "chunk"), RTT: r2, FreeRTT: free}, true
+	case x == 15:
+		return SOp{K: "tick", Dt: m.genDt(t)}, true
+	}
+	return SOp{}, false // an ordinary op: loss, ECN-CE, probe, timeout, partial ACK, ...
+}
+
+func (m *senderMachine) genPlain(t *rapid.T) SOp {
+	view := m.out // packets the ack generator chooses from
+	if m.cheap && len(view) > 64 {
+		view = view[:64]
+	}
+	nOut := len(view)
 	if m.p.Big && rapid.IntRange(0, 9).Draw(t, "pump") < 8 {
 		// goal-directed: fill the window, acknowledge everything, repeat - doubles the window up to the maximum
 		if m.canSend() || nOut == 0 {
@@ -678,7 +992,7 @@ func (m *senderMachine) Gen(t *rapid.T) SOp {
 			op.N = rapid.IntRange(1, 12).Draw(t, "n")
 		default:
 			op.N = 200 // fill the window
-			if m.p.Big {
+			if m.p.Big || (m.p.Near && !m.cheap) {
 				op.N = 25000
 			}
 		}
@@ -701,12 +1015,12 @@ func (m *senderMachine) Gen(t *rapid.T) SOp {
 		pick := rapid.IntRange(0, 9).Draw(t, "ackmode")
 		switch {
 		case pick <= 2: // everything outstanding
-			for _, p := range m.out {
+			for _, p := range view {
 				op.Acked = append(op.Acked, p.pn)
 			}
 		case pick <= 5: // a prefix
 			n := rapid.IntRange(1, nOut).Draw(t, "prefix")
-			for _, p := range m.out[:n] {
+			for _, p := range view[:n] {
 				op.Acked = append(op.Acked, p.pn)
 			}
 		case pick <= 7: // a suffix after a gap: the classic loss pattern
@@ -715,13 +1029,13 @@ func (m *senderMachine) Gen(t *rapid.T) SOp {
 				gap = nOut - 1
 			}
 			n := rapid.IntRange(1, nOut-gap).Draw(t, "n")
-			for _, p := range m.out[gap : gap+n] {
+			for _, p := range view[gap : gap+n] {
 				op.Acked = append(op.Acked, p.pn)
 			}
 		case pick == 8: // only the newest
-			op.Acked = []int64{m.out[nOut-1].pn}
+			op.Acked = []int64{view[nOut-1].pn}
 		default: // arbitrary subset
-			sub := m.out
+			sub := view
 			if len(sub) > 48 {
 				sub = sub[:48]
 			}
@@ -731,7 +1045,7 @@ func (m *senderMachine) Gen(t *rapid.T) SOp {
 				}
 			}
 			if len(op.Acked) == 0 {
-				op.Acked = []int64{m.out[0].pn}
+				op.Acked = []int64{view[0].pn}
 			}
 		}
 		la := max(m.largestAcked, op.Acked[len(op.Acked)-1])
@@ -815,6 +1129,15 @@ func (m *senderMachine) genLost(t *rapid.T, largestAcked int64, acked []int64) [
 	}
 }
 
+// nearOneIn: about one history in nearOneIn is directed to the maximum window (each costs 100-300 thousand callbacks).
+// C20_NEAR_ONE_IN overrides it (development aid for measuring the directed histories: 1 = every history).
+var nearOneIn = func() int {
+	if n, err := strconv.Atoi(os.Getenv("C20_NEAR_ONE_IN")); err == nil && n > 0 {
+		return n
+	}
+	return 32
+}()
+
 func genSParams(profile int) func(t *rapid.T) SParams {
 	return func(t *rapid.T) SParams {
 		p := SParams{Profile: profile}
@@ -826,6 +1149,21 @@ func genSParams(profile int) func(t *rapid.T) SParams {
 		}
 		p.Big = rapid.IntRange(0, 119).Draw(t, "big") == 119
 		p.Huge = profile == 0 && rapid.IntRange(0, 2).Draw(t, "huge") == 2
+		// (rapid's integer ranges favour their ends, 0 above all; a value from the middle gives a rare event its nominal frequency)
+		if !p.Big && (nearOneIn == 1 || rapid.IntRange(0, nearOneIn-1).Draw(t, "near") == nearOneIn/2+1) {
+			p.Near = true
+			p.Huge = false
+			p.NearK = rapid.SampledFrom([]int{0, 0, 1, 1, 2, 3, 3, 5, 9}).Draw(t, "near-k")
+			p.NearRTT = rapid.SampledFrom([]int64{2_000_000, 10_000_000, 20_000_000, 50_000_000, 100_000_000, 300_000_000}).Draw(t, "near-rtt")
+			p.NearChunk = rapid.SampledFrom([]int{0, 0, 2, 10, 64, 500}).Draw(t, "near-chunk")
+			if rapid.IntRange(0, 2).Draw(t, "near-mtu") == 0 {
+				p.NearMTUAt = rapid.SampledFrom([]int{33, 200, 3000, 8000, 8193}).Draw(t, "near-mtu-at")
+			}
+			p.NearWork = rapid.SampledFrom([]int{120_000, 200_000, 300_000}).Draw(t, "near-work")
+			if p.InitRTT > 1_000_000_000 {
+				p.InitRTT = 0
+			}
+		}
 		return p
 	}
 }
